@@ -204,6 +204,8 @@ class Patcher(object):
         o["remove"] = os.remove
         o["access"] = os.access
         o["getpid"] = os.getpid
+        o["getppid"] = os.getppid
+        o["os_open"] = os.open
         o["home"] = pathlib.Path.__dict__["home"]
         o["listdir"] = os.listdir
         o["scandir"] = os.scandir
@@ -310,6 +312,12 @@ class Patcher(object):
                 return o["getpid"]()
             return proc.pid
 
+        def v_getppid():
+            proc = current()
+            if proc is None:
+                return o["getppid"]()
+            return 999  # all virtual processes are children of one parent
+
         def v_home(cls):
             proc = current()
             if proc is None:
@@ -336,9 +344,10 @@ class Patcher(object):
         os.remove = v_unlink
         os.access = v_access
         os.getpid = v_getpid
+        os.getppid = v_getppid
         pathlib.Path.home = classmethod(v_home)
-        for name in ("listdir", "scandir", "rmdir", "makedirs"):
-            setattr(os, name, unsupported(name))
+        for name in ("listdir", "scandir", "rmdir", "makedirs", "os_open"):
+            setattr(os, name.replace("os_", ""), unsupported(name))
 
     def uninstall(self):
         o = self.orig
@@ -353,6 +362,8 @@ class Patcher(object):
         os.remove = o["remove"]
         os.access = o["access"]
         os.getpid = o["getpid"]
+        os.getppid = o["getppid"]
+        os.open = o["os_open"]
         pathlib.Path.home = o["home"]
         for name in ("listdir", "scandir", "rmdir", "makedirs"):
             setattr(os, name, o[name])
